@@ -5,6 +5,8 @@ import HdVerif.Proofs.SegReadTie
 import HdVerif.Proofs.SegReadSpec
 import HdVerif.Generated.T8h
 import HdVerif.Generated.T8s
+import HdVerif.Generated.T8r
+import HdVerif.Proofs.SegReadState
 /-! # C02  Segment selection, ordering, combining and relabelling are exact
 
 Error kinds in the statements (`.error .runtime`, `.value`, `.key`) are the model's labels for the refusals; the
@@ -685,6 +687,42 @@ example : ∃ σ σ' : St, (∀ x, σ.env x = some 0 → x = 0) ∧ Exec exInPla
     · exact Step.writeInPlace ⟨1, true, .fresh⟩ (by simp [exInPlace]) rfl 0 1 _ (by simp [St.bind])
   · simp [St.write, σ]
 
+/-! ## Histories on one object (tie T: T8r, T8h; correspondence: every object is read ~40 times in one history)
+
+Between two calls an object carries (1) the temporary tables of its SQLite database and (2) possibly the decoded pixel array.
+`Model/SegReadState.lean` is a state machine over both; the operations on the tables are the ones extracted from
+`_generate_temp_tables` (T8r). -/
+
+/-- the extracted program passes the check the induction needs: before the `yield` every table is dropped if it exists and then
+created, so the outcome does not depend on what an earlier (refused) read left; after it the table is dropped -/
+theorem temp_table_program_is_restartable :
+    SegState.tempProgOk tempTablesPre tempTablesPost = true := by decide
+
+/-- **No function on a read path keeps state on the object** except the accessor `pixel_array`, which stores the decoded
+array: every `self.x = …` / `del self.x` in the functions reachable from the five entry points (T8r) is that one. -/
+theorem reads_keep_no_state_on_the_object :
+    (readPathSelfWrites.all fun w => w == ("_Image.pixel_array", "_pixel_array")) = true ∧
+    (["Segmentation._get_pixels_by_seg_frame", "_Image._get_pixels_by_frame", "_Image._iterate_indices_for_stack",
+      "_Image._generate_temp_tables", "_Image.get_stored_frame"].all fun f => readPathFunctions.contains f) = true := by
+  decide
+
+/-- **State-independence of reads**: take any object state (any temporary tables left behind, pixel array cached or not) and
+any history of operations — reads of any kind, accepted or refused, and looks at `pixel_array` — then every read answers
+exactly as it would on a fresh object (`stateless`), in particular a request repeated later gets the same answer.  Hypotheses:
+`hlen` every read uses the object's tables; `hlaw` the frames taken from the cached array are the frames decoded one by one
+(pydicom's whole-array decoding vs frame decoding — exercised by the correspondence, which accesses `pixel_array` at a random
+step of every history). -/
+theorem reads_are_state_independent (n : Nat) (ops : List (SegState.Op Out))
+    (hlen : ∀ f d c, SegState.Op.read f d c ∈ ops → f.length = n) (hlaw : ∀ f d c, SegState.Op.read f d c ∈ ops → c = d)
+    (σ σ' : SegState.ObjState) (hσ : σ.db.length = n) (hσ' : σ'.db.length = n) :
+    SegState.run tempTablesGuarded tempTablesPre tempTablesPost ops σ = ops.map SegState.stateless ∧
+    SegState.run tempTablesGuarded tempTablesPre tempTablesPost ops σ =
+      SegState.run tempTablesGuarded tempTablesPre tempTablesPost ops σ' := by
+  have hp := SegState.progFacts_of_ok _ _ temp_table_program_is_restartable
+  have h1 := SegState.run_stateless tempTablesGuarded _ _ hp n ops hlen hlaw σ hσ
+  have h2 := SegState.run_stateless tempTablesGuarded _ _ hp n ops hlen hlaw σ' hσ'
+  exact ⟨h1, by rw [h1, h2]⟩
+
 /-! ## The hand-written loops use the expressions of the source (tie T: T8j, T8k, T8m)
 
 Bridges between hand-written definitions of `Model/SegRead.lean` and definitions regenerated from the current source
@@ -1196,5 +1234,22 @@ example : SegRead.read { exBin with locPreserved := some false, refs := [7, 8] }
   source_indexing_refused _ _ _ _ (by decide)
 example : SegRead.read { exBin with locPreserved := some false, refs := [7, 8] } .bySource false { keys := [8], segs := [1], combine := true, relabel := false, rescale := true, skipOverlap := false, dtype := none, ignoreSpatial := true } = .ok (.combined [[1, 0, 0]]) := by
   decide
+
+/-- non-vacuity, both ways.  (a) A history on the BINARY example: a refused read (overlap) leaves both tables behind, a look at
+`pixel_array`, then the read A, a read whose channel INSERT fails (repeated output channel), and A again: the two A answer
+alike.  (b) The same history under a program WITHOUT the drop-if-exists step is not state-independent: after the refused
+read every later read fails on CREATE TABLE. -/
+def exHistory : List (SegState.Op Out) :=
+  let bad := SegRead.read exBin .all true { keys := [8, 7], segs := [2, 1], combine := true, relabel := false, rescale := true, skipOverlap := false, dtype := none }
+  let a := SegRead.read exBin .all true { keys := [8, 7], segs := [3, 1], combine := true, relabel := true, rescale := true, skipOverlap := false, dtype := none }
+  [.read [false, false] bad bad, .touch, .read [false, false] a a, .read [false, true] bad bad, .read [false, false] a a]
+
+example : SegState.run tempTablesGuarded tempTablesPre tempTablesPost exHistory ⟨false, [false, false]⟩ =
+    [some (.error .runtime), none, some (.ok (.combined [[2, 0, 1], [2, 2, 0]])), some (.error .other),
+     some (.ok (.combined [[2, 0, 1], [2, 2, 0]]))] := by decide
+
+example : SegState.tempProgOk [.create, .insert] [.drop] = false ∧
+    SegState.run false [.create, .insert] [.drop] exHistory ⟨false, [false, false]⟩ =
+      [some (.error .runtime), none, some (.error .other), some (.error .other), some (.error .other)] := by decide
 
 end HdVerif.C02
